@@ -23,13 +23,13 @@ QUICK = [  # (ops, R, k)
     (["flip", "argmax"], 3, 1), (["roll", "sort", "softmax", "argsort", "log_softmax", "argmin"], 2, 1),
 ]
 THOROUGH = [
-    (["id"], 3, 2), (["id"], 4, 1),
-    (["sum", "max", "mean"], 3, 2), (["sum"], 4, 1), (RED_REST, 3, 1),
-    (["add", "subtract"], 3, 1), (["where"], 2, 1), (ELEM_REST, 2, 1),
-    (["dot"], 3, 1), (["dot"], 2, 2),
-    (["get_at"], 3, 1),
-    (["add_at", "set_at"], 3, 0), (["add_at", "set_at", "subtract_at"], 2, 1), (["add_at"], 3, 1),
-    (["flip", "roll", "sort", "softmax", "argmax"], 3, 1), (["flip", "argmax"], 3, 2), (["argsort", "log_softmax", "argmin"], 3, 1),
+    (["id"], 3, 1), (["id"], 4, 1), (["id"], 2, 2),
+    (["sum", "max", "mean"], 3, 1), (["sum"], 2, 2), (RED_REST, 3, 1),
+    (["add", "subtract"], 3, 0), (["add", "subtract"], 2, 1), (["where"], 2, 0), (["where"], 1, 1), (ELEM_REST, 2, 0), (ELEM_REST, 1, 1),
+    (["dot"], 3, 0), (["dot"], 2, 1),
+    (["get_at"], 3, 0), (["get_at"], 2, 1),
+    (["add_at", "set_at"], 3, 0), (["add_at", "set_at", "subtract_at"], 2, 1),
+    (["flip", "roll", "sort", "softmax", "argmax"], 3, 1), (["argsort", "log_softmax", "argmin"], 3, 1),
 ]
 
 
